@@ -21,6 +21,9 @@ from droop.election import Election                                 # noqa: E402
 from droop.common import UsageError, ElectionError                  # noqa: E402
 from droop import values as dvalues                                 # noqa: E402
 
+# class attributes of the arithmetic classes as a fresh interpreter has them (captured at first import, before any initialize())
+PRISTINE_CLASS_STATE = {c: dict(c.__dict__) for c in (dvalues.fixed.Fixed, dvalues.guarded.Guarded, dvalues.rational.Rational)}
+
 RULES = ['wigm', 'wigm-prf', 'wigm-prf-batch', 'cfer', 'cfer-batch', 'scotland', 'mpls',
          'meek', 'warren', 'meek-prf', 'qpq']
 GREG = ['wigm', 'wigm-prf', 'wigm-prf-batch', 'cfer', 'cfer-batch', 'scotland', 'mpls']
